@@ -957,6 +957,193 @@ def tie_sup_dist_na(rng, n):
     return sum(len(a) + len(b) for (a, b), _ in exp), [(c, r, o) for (c, r), o in zip(exp, out) if r != Fraction(o)]
 
 
+# ----------------------------------------------------------------------------- C18: EvaluationResult as value trees (object layer)
+ER_FIELDS = ("test_distribution", "name", "observed_statistic", "quantile", "status", "obs_catalog_repr", "sim_name", "obs_name",
+             "min_mw")
+
+
+def _er_values(rng):
+    """field values as harness/c18_tree.py generates them (trees with dicts, lists, tuples, numpy scalars, foreign objects);
+    test_distribution: numpy arrays of every dtype / shape, dicts, lists, tuples, scalars, None"""
+    from . import c18_tree as t
+    allow_unsafe = rng.random() < 0.45
+    vals = {f: t.gen_tree(rng, 2, allow_unsafe) for f in ER_FIELDS}
+    k = rng.random()
+    if k < 0.5:
+        vals["test_distribution"] = t.gen_td_dtype(rng, allow_unsafe)
+    elif k < 0.65:
+        vals["test_distribution"] = t.gen_dict(rng, 1, False)
+    elif k < 0.85:
+        v = t.gen_tree(rng, 2, allow_unsafe)
+        vals["test_distribution"] = v if isinstance(v, (list, tuple, dict)) else [v]
+    else:
+        vals["test_distribution"] = rng.choice([None, 2.5, 3, "abc", ()])
+    return vals
+
+
+def _exc_name(e):
+    return type(e).__name__ if type(e).__name__ in ("KeyError", "TypeError", "AttributeError", "ValueError") else "Exception"
+
+
+def tie_er_init(rng, n):
+    import csep.models as M
+    from . import c18_tree as t
+    drv, exp = Driver(), []
+    for _ in range(n // 2):
+        vals = _er_values(rng)
+        r = M.EvaluationResult(**vals)
+        enc = lambda f, v: t.encs(v, td=(f == "test_distribution"), canon=True)
+        exp.append((vals, ";".join(enc(f, getattr(r, f)) for f in ER_FIELDS)))
+        drv.ask("src_er_init " + ";".join(t.encs(vals[f], td=(f == "test_distribution")) for f in ER_FIELDS))
+    out = drv.run()
+    return len(exp), [(str(c)[:200], r[:120], o[:120]) for (c, r), o in zip(exp, out) if r != o]
+
+
+def tie_er_to_dict(rng, n):
+    import csep.models as M
+    from . import c18, c18_tree as t
+    drv, exp = Driver(), []
+    for _ in range(n):
+        vals = _er_values(rng)
+        td_ = vals["test_distribution"]
+        if isinstance(td_, dict) and any(t.key_tok(k_).startswith("kx") for k_ in td_):
+            continue            # list(d) of keys that have no kind in the value model (numpy / tuple / bytes keys)
+        cls = rng.choice(["EvaluationResult", "CatalogNumberTestResult", "CalibrationTestResult"])
+        res = object.__new__(getattr(M, cls))       # the attributes are set here, not by __init__ (which has its own tie)
+        res.__dict__.update(vals, named_type=cls)
+        try:
+            with c18.quiet():
+                r = t.encs(res.to_dict(), canon=True)
+        except Exception as e:
+            r = _exc_name(e)
+        exp.append((vals, r))
+        drv.ask("src_er_to_dict " + ";".join([t.encs(vals[f], td=(f == "test_distribution")) for f in ER_FIELDS]
+                                             + [t.encs(cls)]))
+    out = drv.run()
+    return len(exp), [(str(c)[:200], r[:120], o[:120]) for (c, r), o in zip(exp, out) if r != o]
+
+
+def tie_er_from_dict(rng, n):
+    """dictionaries written by to_dict, with members removed / renamed, and values that are not dictionaries"""
+    import csep.models as M
+    from . import c18_tree as t
+    drv, exp = Driver(), []
+    for _ in range(n):
+        vals = {f: t.gen_tree(rng, 2, False) for f in ER_FIELDS}
+        d = dict(vals, type="EvaluationResult")
+        k = rng.random()
+        if k < 0.3:
+            for f in rng.sample(ER_FIELDS, rng.randint(1, 3)):
+                del d[f]
+        elif k < 0.4:
+            d = rng.choice([None, [1, 2], (3,), "text", 5, 2.5, True, {}])
+        elif k < 0.5:
+            d["extra"] = 1
+        try:
+            r = M.EvaluationResult.from_dict(d)
+            res = ";".join(t.encs(getattr(r, f), canon=True) for f in ER_FIELDS)
+        except Exception as e:
+            res = _exc_name(e)
+        exp.append((d, res))
+        drv.ask("src_er_from_dict " + t.encs(d))
+    out = drv.run()
+    return len(exp), [(str(c)[:200], r[:120], o[:120]) for (c, r), o in zip(exp, out) if r != o]
+
+
+def _region_dict_tie(rng, n, quad):
+    import numpy
+    from csep.core import regions
+    from . import c18, c18_tree as t
+    drv, exp = Driver(), []
+    for _ in range(max(20, n // 8)):
+        name = rng.choice([None, "italy", "", "a b", "µ-region"])
+        if quad:
+            qk = rng.sample(["0", "1", "20", "21", "22", "23", "300", "31"], rng.randint(1, 5))
+            reg = regions.QuadtreeGrid2D.from_quadkeys(qk, name=name)
+            dh = 0.0
+        else:
+            dh = rng.choice([0.1, 0.5, 1.0, 0.25])
+            x0, y0 = round(rng.uniform(-170, 160), 1), round(rng.uniform(-80, 70), 1)
+            origins = [(x0 + i * dh, y0 + j * dh) for j in range(rng.randint(1, 3)) for i in range(rng.randint(1, 3))]
+            reg = regions.CartesianGrid2D.from_origins(numpy.array(origins), dh=dh, name=name)
+            dh = float(reg.dh)
+        with c18.quiet():
+            r = t.encs(reg.to_dict(), canon=True)
+        os_ = ",".join(f"{_bits(p.origin[0])}:{_bits(p.origin[1])}" for p in reg.polygons) or "-"
+        nm = "N" if reg.name is None else c18.hexs(str(reg.name)) + "."
+        exp.append((dict(name=name, n=len(reg.polygons)), r))
+        drv.ask(f"src_grid_to_dict {int(quad)} {nm} {_bits(dh)} {os_}")
+    out = drv.run()
+    return len(exp), [(c, r[:120], o[:120]) for (c, r), o in zip(exp, out) if r != o]
+
+
+def tie_grid_from_dict(rng, n):
+    """dictionaries written by to_dict with members removed, of other kinds, polygons that are not lists of {lon, lat}
+    dictionaries, magnitudes present; `from_origins` is replaced by a recorder of its four arguments. Inputs on which the
+    generated definition answers `other` (numpy.array of something that is not a float list / float rows) are not compared."""
+    import numpy
+    from csep.core import regions
+    from . import c18, c18_tree as t
+    drv, exp = Driver(), []
+    odd = [None, 5, 2.5, True, "ab", (1, 2), [1, 2], {}, {"lon": 1.0}]
+    rec = classmethod(lambda cls, origins, dh=None, magnitudes=None, name=None: (origins, dh, magnitudes, name))
+    orig = regions.CartesianGrid2D.__dict__["from_origins"]
+    regions.CartesianGrid2D.from_origins = rec
+    try:
+        for _ in range(n):
+            npoly = rng.choice([0, 1, 1, 2, 3, 4])
+            polys = [{"lon": round(rng.uniform(-180, 180), 1), "lat": round(rng.uniform(-90, 90), 1)} for _ in range(npoly)]
+            d = {"name": rng.choice(["italy", "", "µ", None]), "dh": rng.choice([0.1, 0.5, 1.0]), "polygons": polys,
+                 "class_id": "CartesianGrid2D"}
+            k = rng.random()
+            if k < 0.25:
+                for f in rng.sample(list(d), rng.randint(1, 2)):
+                    del d[f]
+            elif k < 0.33:
+                d = rng.choice(odd)
+            elif k < 0.5:
+                j = rng.random()
+                if j < 0.3:
+                    d["polygons"] = rng.choice(odd + [tuple(polys), {"lon": 1.0, "lat": 2.0}])
+                elif j < 0.6 and polys:
+                    i = rng.randrange(len(polys))
+                    polys[i] = rng.choice(odd + [{"lat": 1.0}, {"lon": 2.0}, {"lon": 1, "lat": 2.0}, {"lon": "x", "lat": 2.0},
+                                                 {"lon": [1.0], "lat": 2.0}, {"lon": None, "lat": None}])
+                elif polys:
+                    polys[rng.randrange(len(polys))]["extra"] = 1.0
+            elif k < 0.65:
+                d["magnitudes"] = rng.choice([[4.95, 5.05], [], None, [1, 2], "x", 5.0, [4.95, None], [[1.0], [2.0]],
+                                              [[1.0], [2.0, 3.0]]])
+            elif k < 0.75:
+                d["dh"] = rng.choice([None, 1, "0.1", [0.1]])
+            elif k < 0.8:
+                d["name"] = rng.choice([5, ["a"], 1.5])
+            try:
+                with c18.quiet():
+                    o, dh, m, nm = regions.CartesianGrid2D.from_dict(d)
+                res = ";".join([t.encs(o, td=True, canon=True), t.encs(dh, canon=True), t.encs(m, td=True, canon=True),
+                                t.encs(nm, canon=True)])
+            except Exception as e:
+                res = _exc_name(e)
+            exp.append((d, res))
+            drv.ask("src_grid_from_dict " + t.encs(d))
+    finally:
+        regions.CartesianGrid2D.from_origins = orig
+    out = drv.run()
+    pairs = [(c, r, o) for (c, r), o in zip(exp, out) if o != "Exception"]
+    if len(pairs) < len(exp) // 2:
+        return len(exp), [("too many inputs outside the object layer", str(len(exp) - len(pairs)), "")]
+    return len(pairs), [(str(c)[:200], r[:120], o[:120]) for c, r, o in pairs if r != o]
+
+
+def tie_grid_to_dict(rng, n):
+    return _region_dict_tie(rng, n, False)
+
+
+def tie_quad_to_dict(rng, n):
+    return _region_dict_tie(rng, n, True)
+
+
 # ----------------------------------------------------------------------------- C19: record body of zmap_ascii
 def tie_zmap_record(rng, n):
     """ZMAP files of a few rows (valid and invalid clock readings, fractional years / seconds that int() truncates, 10 to 14
@@ -1028,6 +1215,190 @@ def tie_reader_parse_datetime(rng, n):
             r = "Exception"
         exp.append((t, r))
         drv.ask("src_reader_parse_datetime " + _codes(t))
+    os.unlink(path)
+    os.rmdir(tmp)
+    out = drv.run()
+    return len(exp), [(c, r, o) for (c, r), o in zip(exp, out) if r != o]
+
+
+def _csv_cells(rng):
+    """the cells of one csep-csv record: float texts the text layer reads (plain, exponent, blanks, sign, underscores) and
+    texts that are no numerals, time strings of both formats and broken ones, catalog ids (ints, blank, text), event ids
+    (text, empty), 0 to 8 cells"""
+    fl = lambda: rng.choice([repr(round(rng.uniform(-180, 180), rng.randint(0, 6))), f"{rng.uniform(-90, 90):.3e}", " 1.5 ", "+2.",
+                             ".5", "1_0.25", "-0.0", "7", "1E2", "abc", "", "1.5.2", "1e", "--1", "0x10", "1,5"[:1]])
+    ts = rng.choice(_time_strings(rng, 6)).replace(" ", "T", 1)
+    if "," in ts or '"' in ts:
+        ts = "2020-01-02T03:04:05.5"
+    cid = rng.choice(["0", "5", "-3", "", "x", " 7", "+7", "1_0", "12", "3.0"])
+    eid = rng.choice(["e1", "", "12", "ci123", "a b", "0"])
+    row = [fl(), fl(), fl(), ts, fl(), cid, eid, "extra"]
+    return row[:rng.choice([8, 7, 7, 7, 7, 7, 6, 5, 4, 1, 0])]
+
+
+def _cells_arg(row):
+    return "E" if not row else ";".join(_codes(c) for c in row)
+
+
+def tie_csep_record(rng, n):
+    """csep-csv files of a few records read by the real csep_ascii(return_catalog_id=True): every record is one evaluation of
+    the generated body, with the first-pass flag the loop would have; the file raises what the first failing record raises"""
+    import csv
+    import os
+    import tempfile
+    from csep.utils import readers
+    from csep.core.exceptions import CSEPIOException
+    drv, exp = Driver(), []
+    tmp = tempfile.mkdtemp(prefix="srctie_c19c_")
+    path = os.path.join(tmp, "c.csv")
+    for _ in range(max(30, n // 3)):
+        rows = []
+        if rng.random() < 0.5:
+            rows.append(["lon", "lat", "mag", "time_string", "depth", "catalog_id", "event_id"][:rng.choice([7, 7, 3, 1])])
+        for _k in range(rng.randint(0, 3)):
+            r = _csv_cells(rng)
+            if rng.random() < 0.85:      # mostly well-formed numbers so that later records are reached
+                r = [repr(round(rng.uniform(-99, 99), 3)) if j in (0, 1, 2, 4) and j < len(r) else c for j, c in enumerate(r)]
+            rows.append(r)
+            if rng.random() < 0.1:
+                rows.append(["lon", "lat"])
+        with open(path, "w", newline="") as fh:
+            csv.writer(fh).writerows(rows)
+        rows = [r for r in csv.reader(open(path, newline=""))]       # what the loop sees (an empty record is [])
+        try:
+            ev, cid = readers.csep_ascii(path, return_catalog_id=True)
+            res = ([("R%d" % e[0] if isinstance(e[0], int) else "L" + (_codes(e[0]) if e[0] else "")) +
+                    f":{int(e[1])}:{frac(e[2])}:{frac(e[3])}:{frac(e[4])}:{frac(e[5])}" for e in ev], cid)
+        except (ValueError, IndexError, CSEPIOException) as e:
+            res = type(e).__name__ if not isinstance(e, CSEPIOException) else "Exception"
+        exp.append((rows, res))
+        for i, r in enumerate(rows):
+            for first in (0, 1):
+                drv.ask(f"src_csep_record {i} {first} {_cells_arg(r)}")
+    os.unlink(path)
+    os.rmdir(tmp)
+    out = drv.run()
+    bad, pos, total = [], 0, 0
+    for rows, res in exp:
+        first, evs, cid, err = True, [], None, None
+        for i, r in enumerate(rows):
+            o = out[pos + 2 * i + (1 if first else 0)]
+            total += 1
+            if o in ("ValueError", "IndexError", "Exception"):
+                err = o
+                break
+            if o == "none":
+                continue
+            evs.append(o.rsplit(":", 1)[0])
+            cid = int(o.rsplit(":", 1)[1])
+            first = False
+        pos += 2 * len(rows)
+        got = err if err is not None else (evs, cid)
+        if got != res:
+            bad.append((rows, res, got))
+    return total, bad
+
+
+def tie_jma_record(rng, n):
+    """JMA csv files (';' separated) of a few records read by the real jma_csv: timestamps with offsets in the three forms the
+    text model reads (Z, ±HHMM, ±HH:MM), fractions of one to six digits, non-canonical field widths, invalid clock readings,
+    broken texts; float cells as for csep_ascii; 0 to 6 cells; header records first and later"""
+    import csv
+    import os
+    import tempfile
+    from csep.utils import readers
+    drv, exp = Driver(), []
+    tmp = tempfile.mkdtemp(prefix="srctie_c19j_")
+    path = os.path.join(tmp, "j.csv")
+
+    def stamp():
+        y, mo, d = rng.randint(1900, 2100), rng.randint(1, 12), rng.randint(1, 28)
+        hh, mi, ss = rng.randint(0, 23), rng.randint(0, 59), rng.randint(0, 59)
+        if rng.random() < 0.1:
+            mo, d, hh, ss = rng.choice([(13, d, hh, ss), (2, 30, hh, ss), (mo, d, 24, ss), (mo, d, hh, 60), (0, d, hh, ss), (mo, d, hh, 61)])
+        fr = rng.choice(["0", "5", "25", "123", "1234", "12345", "123456", "999999", "000001", "500000"])
+        z = rng.choice(["Z", "+0900", "+09:00", "-0330", "-03:30", "+0000", "+2359", "-23:59", "", "+9", "+09", "09:00", "z"])
+        w = rng.random() < 0.8
+        t = (f"{y:04d}-{mo:02d}-{d:02d}T{hh:02d}:{mi:02d}:{ss:02d}.{fr}{z}" if w else f"{y}-{mo}-{d}T{hh}:{mi}:{ss}.{fr}{z}")
+        if rng.random() < 0.06:
+            t = rng.choice([t.replace("T", " "), t.replace(".", ""), t[:-1] if t else t, "timestamp", "", t + " ", " " + t])
+        return t
+
+    fl = lambda: rng.choice([repr(round(rng.uniform(-180, 180), rng.randint(0, 6))), f"{rng.uniform(-90, 90):.3e}", " 1.5 ", "+2.",
+                             ".5", "-0.0", "7", "1E2", "abc", "", "1.5.2"])
+    for _ in range(max(30, n // 3)):
+        rows = []
+        if rng.random() < 0.5:
+            rows.append(["timestamp", "longitude", "latitude", "depth", "magnitude"][:rng.choice([5, 5, 2, 1])])
+        for _k in range(rng.randint(0, 3)):
+            r = [stamp(), fl(), fl(), fl(), fl(), "x"][:rng.choice([6, 5, 5, 5, 5, 4, 2, 1, 0])]
+            if rng.random() < 0.8:
+                r = [repr(round(rng.uniform(-99, 99), 3)) if 1 <= j <= 4 else c for j, c in enumerate(r)]
+            rows.append(r)
+            if rng.random() < 0.1:
+                rows.append(["timestamp"])
+        with open(path, "w", newline="") as fh:
+            csv.writer(fh, delimiter=";").writerows(rows)
+        rows = [r for r in csv.reader(open(path, newline=""), delimiter=";")]
+        try:
+            ev = readers.jma_csv(path)
+            res = [f"{e[0]}:{int(e[1])}:{frac(e[2])}:{frac(e[3])}:{frac(e[4])}:{frac(e[5])}" for e in ev]
+        except (ValueError, IndexError) as e:
+            res = type(e).__name__
+        exp.append((rows, res))
+        for i, r in enumerate(rows):
+            for first in (0, 1):
+                drv.ask(f"src_jma_record {i} {first} {_cells_arg(r)}")
+    os.unlink(path)
+    os.rmdir(tmp)
+    out = drv.run()
+    bad, pos, total = [], 0, 0
+    for rows, res in exp:
+        first, evs, err = True, [], None
+        for i, r in enumerate(rows):
+            o = out[pos + 2 * i + (1 if first else 0)]
+            total += 1
+            if o in ("ValueError", "IndexError", "Exception"):
+                err = o
+                break
+            if o == "none":
+                continue
+            evs.append(o)
+            first = False
+        pos += 2 * len(rows)
+        got = err if err is not None else evs
+        if got != res:
+            bad.append((rows, res, got))
+    return total, bad
+
+
+def tie_csep_is_header(rng, n):
+    """`is_header_line` is nested in csep_ascii: reached through one-record files (a header-only file gives no events; an
+    empty record raises IndexError; anything else is parsed as a record)"""
+    import csv
+    import os
+    import tempfile
+    from csep.utils import readers
+    drv, exp = Driver(), []
+    tmp = tempfile.mkdtemp(prefix="srctie_c19h_")
+    path = os.path.join(tmp, "c.csv")
+    good = ["1.0", "2.0", "3.0", "2020-01-02T03:04:05", "5.0", "0", "e"]
+    for _ in range(max(20, n // 10)):
+        row = rng.choice([["lon"], ["lon", "lat"], [], good, ["lon "] + good[1:], ["Lon"] + good[1:], ["lon"] + good[1:], [""] + good[1:]])
+        with open(path, "w", newline="") as fh:
+            csv.writer(fh).writerows([row])
+        row = [r for r in csv.reader(open(path, newline=""))]
+        row = row[0] if row else None
+        if row is None:
+            continue
+        try:
+            res = "True" if len(readers.csep_ascii(path)) == 0 else "False"
+        except IndexError:
+            res = "IndexError"
+        except ValueError:
+            res = "False"           # not a header: the record was parsed (and failed as a record)
+        exp.append((row, res))
+        drv.ask("src_csep_is_header " + _cells_arg(row))
     os.unlink(path)
     os.rmdir(tmp)
     out = drv.run()
@@ -1420,6 +1791,15 @@ def tie_scale_to_test_date(rng, n):
 
 
 TIES = {
+    "er_init": tie_er_init,
+    "grid_from_dict": tie_grid_from_dict,
+    "csep_record": tie_csep_record,
+    "jma_record": tie_jma_record,
+    "csep_is_header": tie_csep_is_header,
+    "grid_to_dict": tie_grid_to_dict,
+    "quad_to_dict": tie_quad_to_dict,
+    "er_to_dict": tie_er_to_dict,
+    "er_from_dict": tie_er_from_dict,
     "zmap_record": tie_zmap_record,
     "horus_record": tie_horus_record,
     "reader_parse_datetime": tie_reader_parse_datetime,
